@@ -1,6 +1,6 @@
 #!/usr/bin/env python3
 """Re-run every kept seeded change (seeded/<name>/) against the check of its own property and every check
-that caught it before; print one line per seed.  `seedmatrix.py --all` runs every claimed check instead.
+that caught it before; print one line per seed.  `seedmatrix.py --all` runs every claimed check instead, `--own` only the seed's own property.
 Development tool (applies each patch to /repo and undoes it; /repo must be clean); never part of a
 registered check."""
 import sys, os, json, subprocess
@@ -8,6 +8,7 @@ V = os.path.dirname(os.path.dirname(os.path.abspath(__file__)))
 sys.path.insert(0, os.path.join(V, "tools"))
 import seedtest
 full = "--all" in sys.argv
+own_only = "--own" in sys.argv
 only = [a for a in sys.argv[1:] if not a.startswith("--")]
 missed = []
 for n in sorted(os.listdir(os.path.join(V, "seeded"))):
@@ -15,7 +16,7 @@ for n in sorted(os.listdir(os.path.join(V, "seeded"))):
         continue
     d = os.path.join(V, "seeded", n)
     meta = json.load(open(os.path.join(d, "meta.json")))
-    ids = [] if full else sorted(set(meta.get("caught_by", [])) | {meta["property"]})
+    ids = [] if full else ([meta["property"]] if own_only else sorted(set(meta.get("caught_by", [])) | {meta["property"]}))
     r = seedtest.run(d, ids)
     own = meta["property"] in r["caught_with_failing_input"]
     if not own:
